@@ -39,7 +39,7 @@ SpecMake(path, haslo, lo, hashi, hi) ==
       [] path = "optpair"               -> FromOptPair(haslo, lo, hashi, hi)
 
 ScalarAdmissible(op, a, k) ==
-    /\ op = "div" => k # 0
+    /\ op \in {"div", "div_s4"} => k # 0
     /\ (op = "mul" /\ k = 0) => a.k = "two"
 
 SpecScalar(op, a, k) == [tag |-> "ok", iv |-> ScalarRef(op, a, k)]
@@ -135,10 +135,11 @@ Failed(e) ==
          IF RelPanics(e.a, e.b)
          THEN {c \in {"C13.relative_panic"} : e.out.tag # "panic"}
          ELSE IF e.out.tag # "ok" THEN {"C13.relative_total"}
-         ELSE LET r == e.out.iv IN
+         ELSE LET r == e.out.iv
+                  G == {e.grid[i] : i \in DOMAIN e.grid} IN
               {c \in {"C13.relative_wellformed"} : ~WellFormed(r)}
-              \cup {c \in {"C13.relative_sound"} : ~RelSound(e.a, e.b, r, e.grid, e.scale)}
-              \cup {c \in {"C13.relative_tight"} : ~RelTight(e.a, e.b, r, e.grid, e.scale)}
+              \cup {c \in {"C13.relative_sound"} : ~RelSound(e.a, e.b, r, G, e.scale)}
+              \cup {c \in {"C13.relative_tight"} : ~RelTight(e.a, e.b, r, G, e.scale)}
 
     [] e.op = "iv.display" ->
          {c \in {"C19.display"} : e.res # ShowRef(e.a, e.lo_s, e.hi_s)}
